@@ -888,6 +888,8 @@ func verifDriverMain() {
 			reply(verifLogRun(w))
 		case w[0] == "glue.run":
 			reply(verifGlueRun(w))
+		case w[0] == "keys.run":
+			reply(verifKeysRun(w))
 		case w[0] == "term.new" && len(w) == 1:
 			// the monitor as main() builds it (newTermMonitor: the channels are the code's own).
 			// The driver never raises real signals; TOR_PT_EXIT_ON_STDIN_CLOSE is cleared so
